@@ -3,6 +3,8 @@ package c08
 import (
 	"bytes"
 	"fmt"
+	"runtime"
+	"strings"
 	"testing"
 
 	"pgregory.net/rapid"
@@ -53,6 +55,25 @@ func drawCompiler(t *rapid.T, in inst) compiler.Name {
 		}
 	}
 	return rapid.SampledFrom(pool).Draw(t, "compiler")
+}
+
+const knownNilComponent = "C08-nil-component-panic"
+
+// panicsNilDeref runs f; it returns the panic message if f panics with a nil pointer
+// dereference, re-panics on any other panic, and returns "" when f returns normally.
+func panicsNilDeref(f func()) (msg string) {
+	defer func() {
+		if r := recover(); r != nil {
+			s := fmt.Sprint(r)
+			if re, ok := r.(runtime.Error); ok && strings.Contains(re.Error(), "nil pointer dereference") {
+				msg = s
+				return
+			}
+			panic(r)
+		}
+	}()
+	f()
+	return ""
 }
 
 type fataler interface {
@@ -227,9 +248,22 @@ func runTamper(t *rapid.T, test string, in inst, what string) {
 		t.Fatalf("harness: context: %v", err)
 	}
 	var verr error
-	vlib.NoPanic(t, fmt.Sprintf("Verify of a mutated %s proof (%s at %s)", cn, m.op, m.path), func() {
-		verr = in.Verify(cn, ctxV, seed+3, "", false, m.bytes, false)
-	})
+	if m.op == "null" || m.op == "map-drop" {
+		// catalogued finding C08-nil-component-panic: a missing / null component below the level the
+		// compilers validate is dereferenced. Exactly these inputs are excluded (and observed by
+		// TestKnownNilComponent); a panic on any other mutation still fails.
+		if msg := panicsNilDeref(func() { verr = in.Verify(cn, ctxV, seed+3, "", false, m.bytes, false) }); msg != "" {
+			vlib.Excluded(knownNilComponent)
+			vlib.Class(test, "known-nil-deref="+in.Proto()+"/"+string(cn)+":"+shortClass(m.class))
+			vlib.Case(test, vlib.Desc(in.Proto(), cn, in.Shape(), in.Group(), "tamper:"+m.op, "excluded-known-panic"), false,
+				"op="+m.op, "verdict=excluded:"+knownNilComponent)
+			return
+		}
+	} else {
+		vlib.NoPanic(t, fmt.Sprintf("Verify of a mutated %s proof (%s at %s)", cn, m.op, m.path), func() {
+			verr = in.Verify(cn, ctxV, seed+3, "", false, m.bytes, false)
+		})
+	}
 	if se, ok := verr.(*stepErr); ok && se.step != "Verify" {
 		t.Fatalf("harness: %v", verr)
 	}
